@@ -631,3 +631,22 @@ def diskdump_sub_header_32(path, ps, be=False, pad=False, vmcoreinfo=b"OSRELEASE
                               s64, e64, m64)
         f.seek(ps)
         f.write(sub.ljust(512, b"\0") + vmcoreinfo)
+
+
+# ---------------------------------------------------------------- C18 (appended)
+def write_elf_unaligned(path, pfn, npages, ps=4096, shift=None, voff=0xffffffff80000000):
+    """ELF64 x86_64 core with ONE PT_LOAD whose file offset is not page aligned
+    (offset = ps + shift, default shift = ps // 2): every memory page straddles
+    two file-cache pages, so a read with file.mmap_policy=never needs a bounce
+    buffer whenever the two cache pages are not adjacent in memory."""
+    shift = ps // 2 if shift is None else shift
+    off = ps + shift
+    pa = pfn * ps
+    ph = struct.pack("<IIQQQQQQ", 1, 7, off, (pa + voff) & M64, pa, npages * ps, npages * ps, 1)
+    ident = b"\x7fELF" + bytes([2, 1, 1, 0]) + b"\0" * 8
+    eh = ident + struct.pack("<HHIQQQIHHHHHH", 4, EM["x86_64"], 1, 0, 64, 0, 0, 64, 56, 1, 0, 0, 0)
+    with open(path, "wb") as f:
+        f.write(eh + ph)
+        f.seek(off)
+        for i in range(npages):
+            f.write(page_bytes(pfn + i, ps))
